@@ -191,3 +191,6 @@ def run(chk, repo):
     from rules.shared import memo_params
     chk.clauses.append('C17.g exon / intron index look-ups of the annotation are not served from a cache keyed by less than the transcript they were computed for')
     memo_params(chk, repo, 'C17.g', ['gtf.GenomicAnnotation:GenomicAnnotation.', 'gtf.GenomicAnnotationOnDisk:GenomicAnnotationOnDisk.', 'gtf.TranscriptAnnotationModel:'], floor=0)
+    from rules.shared import kwname
+    chk.clauses.append('C17.kw (shared R-THREAD) parameters handed on as keyword arguments keep their name: no `a=b` between two parameters of one function')
+    kwname(chk, repo, 'C17.kw', ['parser.CIRCexplorerParser', 'cli.parse_circexplorer'], floor=0)
